@@ -15,6 +15,7 @@
 package internal
 
 import (
+	"errors"
 	"iter"
 	"maps"
 	"net/http"
@@ -42,22 +43,35 @@ func (r RawTime) Value() (t time.Time, valid bool) {
 // RawDeltaSeconds is a string that represents a delta time in seconds,
 // as defined in §1.2.2 of RFC 9111.
 //
-// This implementation supports values up to the maximum range of int64
-// (9223372036854775807 seconds). Values exceeding 2147483648 (2^31) are
-// valid and will not be capped, as allowed by the RFC, which permits
-// using the greatest positive integer the implementation can represent.
+// Values that cannot be represented as a [time.Duration] (more than
+// [maxDeltaSeconds] seconds, including values that overflow int64) are capped at
+// [maxDeltaSeconds], as allowed by the RFC, which permits using the greatest
+// positive integer the implementation can represent (at least 2^31). The
+// argument may be given as a token or as a quoted-string (RFC 9111 §5.2).
 type RawDeltaSeconds string
 
-func (r RawDeltaSeconds) Value() (dur time.Duration, valid bool) {
-	if len(r) == 0 || r[0] == '-' {
-		return
-	}
-	seconds, err := strconv.ParseInt(string(r), 10, 64)
-	if err != nil {
-		return
-	}
+// maxDeltaSeconds is the largest number of seconds a [time.Duration] can hold.
+const maxDeltaSeconds = int64(maxDuration / time.Second)
 
-	return time.Duration(seconds) * time.Second, true
+func (r RawDeltaSeconds) Value() (dur time.Duration, valid bool) {
+	return parseDeltaSeconds(ParseQuotedString(string(r)))
+}
+
+// parseDeltaSeconds parses a non-negative number of seconds, capping values
+// too large to represent instead of letting them wrap around.
+func parseDeltaSeconds(s string) (dur time.Duration, valid bool) {
+	if len(s) == 0 || s[0] == '-' {
+		return
+	}
+	seconds, err := strconv.ParseInt(s, 10, 64)
+	switch {
+	case err == nil:
+	case errors.Is(err, strconv.ErrRange):
+		seconds = maxDeltaSeconds
+	default:
+		return
+	}
+	return time.Duration(min(seconds, maxDeltaSeconds)) * time.Second, true
 }
 
 // RawCSVSeq is a string that represents a sequence of comma-separated values.
@@ -92,6 +106,8 @@ func directivesSeq2(s string) iter.Seq2[string, string] {
 			if len(key) == 0 {
 				continue
 			}
+			// Directive names are case-insensitive (RFC 9111 §5.2).
+			key = lowerASCII(key)
 			if !yield(key, value) {
 				return
 			}
@@ -103,6 +119,13 @@ func directivesSeq2(s string) iter.Seq2[string, string] {
 // where the keys are the directive names and the values are the arguments.
 func parseDirectives(s string) map[string]string {
 	return maps.Collect(directivesSeq2(s))
+}
+
+// cacheControlValue returns the combined value of all Cache-Control field
+// lines; several field lines are equivalent to one comma-separated list
+// (RFC 9110 §5.3).
+func cacheControlValue(header http.Header) string {
+	return strings.Join(header.Values("Cache-Control"), ",")
 }
 
 func hasToken(d map[string]string, token string) bool {
@@ -126,7 +149,7 @@ func getDurationDirective(d map[string]string, token string) (dur time.Duration,
 type CCRequestDirectives map[string]string
 
 func ParseCCRequestDirectives(header http.Header) CCRequestDirectives {
-	value := header.Get("Cache-Control")
+	value := cacheControlValue(header)
 	if value == "" {
 		return nil
 	}
@@ -185,7 +208,7 @@ func (d CCRequestDirectives) StaleIfError() (dur time.Duration, valid bool) {
 type CCResponseDirectives map[string]string
 
 func ParseCCResponseDirectives(header http.Header) CCResponseDirectives {
-	value := header.Get("Cache-Control")
+	value := cacheControlValue(header)
 	if value == "" {
 		return nil
 	}
